@@ -832,6 +832,19 @@ func (env *SpecEnv) assign(target *SExpr, v *Value) {
 		if env.pkg != nil {
 			if g, ok := env.reg.gvars[env.pkg.PkgPath+"."+target.Name]; ok {
 				cls := "ghost:" + env.pkg.PkgPath + "." + g.Name
+				if v.SpecKind == "" && g.SType.Kind != "mmap" && g.SType.Kind != "set" && g.SType.Kind != "seq" {
+					if gt := env.reg.resolveSType(env.pkg, g.SType); gt != nil {
+						if _, isScalar := scalarSort(gt); !isScalar {
+							// interface / composite ghost variable: one global per leaf
+							cv := env.fr0coerce(v, gt)
+							forEachLeaf(cv, cls, func(path string, t *Term) {
+								env.st.heap[path] = t
+								noteClass(path, t.Sort, true)
+							})
+							return
+						}
+					}
+				}
 				env.st.heap[cls] = v.S
 				noteClass(cls, v.S.Sort, true)
 				if v.SpecKind == "seq" {
@@ -988,4 +1001,15 @@ func (fc *fctx) checkFrame(st *State, fr *frame, oldHeap map[string]*Term, what 
 		goal := Forall([]*Term{r}, Implies(And(append([]*Term{Select(alloc0, r)}, notAllowed...)...), Eq(Select(now, r), Select(old, r))))
 		fc.oblige(st, fr, "frame", what+"["+c+"]", goal)
 	}
+}
+
+// fr0coerce: a ghost assignment of an untyped nil / concrete value to an interface-typed ghost variable
+func (env *SpecEnv) fr0coerce(v *Value, want types.Type) *Value {
+	if _, isIface := want.Underlying().(*types.Interface); isIface && v.K != VIface {
+		if v == untypedNil {
+			return zeroValue(want)
+		}
+		return toIface(v)
+	}
+	return v
 }
